@@ -36,6 +36,10 @@ type Profile struct {
 	// known findings (C07/C08), so only the profiles of those properties switch them on.
 	PluginArith bool
 	StructRefs  bool
+	// OnlyErrOutputs: every declared output is fed by error-path stages (no success output).
+	OnlyErrOutputs bool
+	// PDeployExpr: percent of deploy latencies taken from an earlier step's output.
+	PDeployExpr int
 }
 
 // Doc is a workflow input document.
@@ -271,6 +275,11 @@ func (g *genCtx) genPluginStep(id string) *Step {
 		if g.pct(30, "deploy_expr") {
 			s.Deploy.Latency = g.inputInt()
 		}
+		if g.pct(g.prof.PDeployExpr, "deploy_step_expr") {
+			if pr := g.pickPrior("deploy_src"); pr != nil && pr.Kind == "plugin" {
+				s.Deploy.Latency = StepRef(pr.ID, "outputs", "success", "a")
+			}
+		}
 	}
 	if len(g.prof.Closure) > 0 && g.pct(30, "closure") {
 		c := rapid.SampledFrom(g.prof.Closure).Draw(g.t, "closure_v")
@@ -440,6 +449,9 @@ func GenProgram(t *rapid.T, prof *Profile, doc Doc) *Program {
 		} else {
 			p.Outputs = append(p.Outputs, Output{ID: "other", E: Obj(F("x", StepRef(s.ID, "disabled", "output")))})
 		}
+	}
+	if prof.OnlyErrOutputs && len(p.Outputs) > 1 {
+		p.Outputs = p.Outputs[1:]
 	}
 	if prof.HangIsland {
 		p.Steps = append(p.Steps, &Step{ID: "hang", Kind: "plugin", In: []Field{F("a", Lit(int64(1))), F("mode", Lit("hang"))}})
